@@ -118,7 +118,11 @@ binop_scalar_harness!(u_binop_scalar_{g}, binop_scalar_group_{g}, cadical);
     return "\n".join(out)
 
 
-BCAST_OPS = [o for o in NONDOT if o not in ("Via", "Into", "Where")]
+# Operators whose broadcasting harnesses discharge (measured, 8 in parallel): 2.5-17 min each. Excluded after one full run:
+# Multiply / Divide / Modulo (the list result against the scalar-arm result is again a multiplier / divider equivalence:
+# 50 min timeout), Power (CBMC's powf is not a function: two calls differ), Add and the six comparisons (CBMC ran out of
+# memory at 11-18 GB per process).
+BCAST_OPS = ["Subtract", "Coalesce", "And", "NaturalAnd", "Or", "NaturalOr"]
 
 
 def bcast_harness_names(kind):
